@@ -432,7 +432,8 @@ def _bulk():
         # ---- extend, rebuild strategy: receiver of 8 (identity tables), hint far above
         for tag, keys in (("ab", [8, 9]), ("xa", [3, 8]), ("xx", [5, 5])):
             for hname in ("far", "max"):
-                t = QUICK if (not dq and hname == "far" and tag in ("xa", "xx")) else THOROUGH
+                # (min-max heap: 5 min; the pattern in which nothing is new leaves the length unchanged)
+                t = QUICK if (hname == "far" and ((not dq and tag in ("xa", "xx")) or (dq and tag == "xx"))) else THOROUGH
                 inst(f"extend_{kind}_n8_m2_{tag}_{hname}_rebuild",
                      f"bulk::extend::<{ty}, 8, 2, {seq_of(keys)}>(Pre::Inv, Tables::Identity, step::ALL, {HINTS[hname]})",
                      kind, 10, {"C07": t}, "STEP",
